@@ -10,7 +10,7 @@ import os
 
 from ..facts import site
 from ..symx import TooManyPaths, all_calls, closure_paths, cshow, paths_of, tshow
-from ..terms import display_norm, flatten_fmt, is_call, mentions, same, subterms
+from ..terms import display_norm, flatten_fmt, is_call, mentions, opt_polarity, same, subterms
 
 ASYNC = "ipp::client::non_blocking::AsyncIppClient::send"
 BLOCK = "ipp::client::blocking::IppClient::send"
@@ -76,7 +76,7 @@ def check_send(run, F, fn, kind):
         tcond = None
         for c in p.conds:
             if c[0] == "match" and cfg_field(c[1], "request_timeout"):
-                tcond = c[3] is True or (isinstance(c[3], int) and not isinstance(c[3], bool) and "Some" in c[2] and not c[2].startswith("!"))
+                tcond = opt_polarity(c)
         touts = [x for x in subterms(recv) if is_call(x, timeout_name)]
         if tcond:
             ok = len(touts) == 1 and touts[0][2][1][0] == "proj" and cfg_field(touts[0][2][1][1], "request_timeout")
